@@ -133,6 +133,8 @@ Hypothesis prog_ReadByte : plookup "uvarintReader.ReadByte" prog = Some fn_uvari
 Hypothesis prog_FromReader : plookup "OffsetAndSizeAndSlot.FromReader" prog = Some fn_OffsetAndSizeAndSlot_FromReader.
 Hypothesis prog_Slice : plookup "OffsetAndSizeAndSlotSliceFromBytes" prog = Some fn_OffsetAndSizeAndSlotSliceFromBytes.
 
+Variable ext : string -> list val -> option val.     (* ANY oracle that answers binary.Uvarint as std_ext does *)
+Hypothesis ext_uv : forall buf, ext "binary.Uvarint" [VInts buf] = std_ext "binary.Uvarint" [VInts buf].
 Variable bs : list N.
 Hypothesis bs_len : Z.of_nat (List.length bs) < 4611686018427387904.
 Hypothesis bs_bytes : Forall (fun b => (b < 256)%N) bs.
@@ -144,14 +146,14 @@ Lemma oas_val_oz o s sl fl : oas_val (o, s, sl, fl) = oz (Z.of_N o) (Z.of_N s) (
 Proof. reflexivity. Qed.
 
 Lemma ReadUvarint_body f pos :
-  exec prog std_ext f (f_body fn_uvarintReader_ReadUvarint) [("r", rdr_val pos bs)] =
+  exec prog ext f (f_body fn_uvarintReader_ReadUvarint) [("r", rdr_val pos bs)] =
   match uvp bs pos with
   | Some None => RRet (VTuple [VInt 0; VErr "io.EOF"; rdr_val pos bs])
   | None => RRet (VTuple [VInt 0; VErr "errors.New"; rdr_val pos bs])
   | Some (Some (v, p)) => RRet (VTuple [VInt (Z.of_N v); VNil; rdr_val p bs])
   end.
 Proof.
-  pose proof (ReadUvarint_is_rd_uv prog prog_ReadUvarint f pos bs bs_len) as H.
+  pose proof (ReadUvarint_is_rd_uv_ext prog prog_ReadUvarint ext ext_uv f pos bs bs_len) as H.
   unfold call in H. rewrite prog_ReadUvarint in H.
   change (bind_params (f_params fn_uvarintReader_ReadUvarint) [rdr_val pos bs]) with (Some [("r", rdr_val pos bs)]) in H.
   cbv beta iota in H.
@@ -173,22 +175,22 @@ Proof.
     destruct (Nat.leb_spec (List.length bs) pos) as [Hge|Hlt]; [reflexivity|].
     destruct (uvarint_dec (skipn pos bs)) as [[v n]|]; reflexivity. }
   rewrite R in H. clear R.
-  destruct (exec prog std_ext f (f_body fn_uvarintReader_ReadUvarint) [("r", rdr_val pos bs)]);
+  destruct (exec prog ext f (f_body fn_uvarintReader_ReadUvarint) [("r", rdr_val pos bs)]);
     destruct (uvp bs pos) as [[[v0 p0]|]|]; try discriminate; exact H.
 Qed.
 
 Lemma ReadByte_body f pos :
-  exec prog std_ext f (f_body fn_uvarintReader_ReadByte) [("r", rdr_val pos bs)] =
+  exec prog ext f (f_body fn_uvarintReader_ReadByte) [("r", rdr_val pos bs)] =
   match nth_error bs pos with
   | None => RRet (VTuple [VInt 0; VErr "io.EOF"; rdr_val pos bs])
   | Some b => RRet (VTuple [VInt (Z.of_N b); VNil; rdr_val (S pos) bs])
   end.
 Proof.
-  pose proof (ReadByte_spec prog prog_ReadByte f pos bs bs_len) as H.
+  pose proof (ReadByte_spec_ext prog prog_ReadByte ext f pos bs bs_len) as H.
   unfold call in H. rewrite prog_ReadByte in H.
   change (bind_params (f_params fn_uvarintReader_ReadByte) [rdr_val pos bs]) with (Some [("r", rdr_val pos bs)]) in H.
   cbv beta iota in H.
-  destruct (exec prog std_ext f (f_body fn_uvarintReader_ReadByte) [("r", rdr_val pos bs)]);
+  destruct (exec prog ext f (f_body fn_uvarintReader_ReadByte) [("r", rdr_val pos bs)]);
     destruct (nth_error bs pos); try discriminate; exact H.
 Qed.
 
@@ -207,7 +209,7 @@ Ltac call_uv p :=
 
 Theorem FromReader_body f pos o0 s0 sl0 f0 : (1 <= f)%nat ->
   fr_post (fr bs pos)
-    (exec prog std_ext f (f_body fn_OffsetAndSizeAndSlot_FromReader) [("oas", oz o0 s0 sl0 f0); ("r", rdr_val pos bs)]).
+    (exec prog ext f (f_body fn_OffsetAndSizeAndSlot_FromReader) [("oas", oz o0 s0 sl0 f0); ("r", rdr_val pos bs)]).
 Proof.
   intros Hf. destruct f as [|f]; [lia|].
   unfold fn_OffsetAndSizeAndSlot_FromReader, oz, fr. cbn [f_body]. go_run.
@@ -255,11 +257,11 @@ Lemma loop_spec n : forall pos acc o e g, (n + 2 <= g)%nat ->
   match pdec bs n pos with
   | None => True
   | Some None =>
-      exec prog std_ext g (SFor (EBool true) SSkip loop_body) (loop_env (rdr_val pos bs) acc o e) =
+      exec prog ext g (SFor (EBool true) SSkip loop_body) (loop_env (rdr_val pos bs) acc o e) =
       RRet (VTuple [VInts []; VErr "%w %w errors.New"])
   | Some (Some es) =>
       exists rv' o' e',
-      exec prog std_ext g (SFor (EBool true) SSkip loop_body) (loop_env (rdr_val pos bs) acc o e) =
+      exec prog ext g (SFor (EBool true) SSkip loop_body) (loop_env (rdr_val pos bs) acc o e) =
       RNorm (loop_env rv' (acc ++ map oas_val es) o' e')
   end.
 Proof.
@@ -286,7 +288,7 @@ Qed.
 
 (* OffsetAndSizeAndSlotSliceFromBytes IS the model's entries_dec, for every byte string *)
 Theorem SliceFromBytes_is_entries_dec g f : (List.length bs + 3 <= g)%nat -> (List.length bs < f)%nat ->
-  call prog std_ext g "OffsetAndSizeAndSlotSliceFromBytes" [VInts (zs bs)] =
+  call prog ext g "OffsetAndSizeAndSlotSliceFromBytes" [VInts (zs bs)] =
   match entries_dec f bs with
   | Some es => RRet (VTuple [VTuple (map oas_val es); VNil])
   | None => RRet (VTuple [VInts []; VErr "%w %w errors.New"])
@@ -354,6 +356,7 @@ Theorem SliceFromBytes_entries_enc (es : list entry) g :
 Proof.
   intros Hw Hlen Hg.
   rewrite (SliceFromBytes_is_entries_dec prog prog_ReadUvarint prog_ReadByte prog_FromReader prog_Slice
+             std_ext (fun _ => eq_refl)
              (entries_enc es) Hlen (entries_enc_bytes es Hw) g (S (List.length (entries_enc es))) Hg ltac:(lia)).
   rewrite entries_dec_enc; [reflexivity| |exact Hw].
   pose proof (entries_enc_length es). lia.
